@@ -546,6 +546,7 @@ func ruleC03(prog *Program, rep *Report) {
 	applyParseResults(rep, scross, kindsCross, "A-sencross", 12)
 	rulePreambleAgree(prog, rep)
 	ruleArmTwinsAll(prog, rep, true)
+	ruleBOM(prog, rep)           // the []byte and the reader entry must skip the same preamble
 	ruleBigLimitAgree(prog, rep) // the kind of value a number comes back as must not depend on the chunking
 	ruleSENFollow(prog, rep)
 	ruleReaderLoops(prog, rep)
